@@ -7,6 +7,7 @@ every counter size: the database's pairs must not be refused and must request th
 non-native size."""
 from . import cfg
 from .exprfold import Unknown
+from . import evexfeatures
 from .evexfeatures import _eval_stmt, _Ret
 
 VALID = {32: (2, 4), 64: (4, 8)}
@@ -33,6 +34,9 @@ def run(chk, unit="asmjit/x86/x86assembler.cpp", rule="R-JECXZ-COUNTER-DB-AGREE"
                 block = i
                 break
     chk.need(block is not None, "JecxzLoop: the explicit-counter branch `if (o0.is_reg())` not found")
+    fh = chk.facts(unit, funcs=r"asmjit::x86::[a-z_0-9]+$")
+    evexfeatures.HELPERS.clear()
+    evexfeatures.HELPERS.update({g.name: g for g in cfg.load_functions(fh) if g.file.endswith(unit.split("/")[-1])})
     n = 0
     for mode in (32, 64):
         for size in VALID[mode]:
